@@ -162,8 +162,8 @@ Proof. vm_compute. repeat split; reflexivity. Qed.
 Example grid_repaired_hypothesis_nonvacuous : children grid_zero_best "g" <> [] /\ best_child_repaired [cell "c1" None] "g" = BestNone.
 Proof. split; [vm_compute; discriminate | vm_compute; reflexivity]. Qed.
 Example grid_obs_matches_example :
-  grid_obs_matches grid_zero_best ("g", ObsBestId "c2", ["c2"]) = true /\
-  grid_obs_matches grid_zero_best ("g", ObsBestId "c3", ["c2"]) = false /\
-  grid_obs_matches grid_zero_best ("g", ObsBestNone, ["c2"]) = false /\
-  grid_obs_matches grid_zero_best ("g", ObsBestId "c2", ["c2"; "c3"]) = false.
+  grid_obs_matches false grid_zero_best ("g", ObsBestId "c2", ["c2"]) = true /\
+  grid_obs_matches false grid_zero_best ("g", ObsBestId "c3", ["c2"]) = false /\
+  grid_obs_matches false grid_zero_best ("g", ObsBestNone, ["c2"]) = false /\
+  grid_obs_matches false grid_zero_best ("g", ObsBestId "c2", ["c2"; "c3"]) = false.
 Proof. vm_compute. repeat split; reflexivity. Qed.
